@@ -1,8 +1,8 @@
 """C11 - the table cache never yields a wrong table, even after a crash."""
 import ast
 
-from ..astutil import catches_everything, dotted, method_call
-from ..cfg import cfg_of, norm, walk_own
+from ..astutil import catches_everything, dotted, method_call, universal
+from ..cfg import canon_test, cfg_of, norm, walk_own
 from ..consteval import fold_in
 from ..mutate import B, M
 
@@ -127,9 +127,11 @@ def check(ctx):
         callee = valid[0].node.func
         if isinstance(callee, ast.Attribute) and norm(callee.value) == 'self' and fcb.cls.has(callee.attr):
             vf = fcb.cls.method(callee.attr)
-            isi = [c for c in ast.walk(vf.node) if isinstance(c, ast.Call) and dotted(c.func) == 'isinstance' and norm(c.args[1]) == 'self.element_class']
-            alls = [c for c in ast.walk(vf.node) if isinstance(c, ast.Call) and dotted(c.func) == 'all']
-            ok7 = len(isi) == 1 and len(alls) == 1
+            u = universal(vf.node)
+            ok7 = False
+            if u is not None and len(u['gens']) == 2 and not u['filters']:
+                (g1, it1), (el, it2) = u['gens']
+                ok7 = it1 in ('%s.values()' % vf.params[1],) and it2 == '%s.values()' % g1 and u['pred'] == canon_test(ast.parse('isinstance(%s, self.element_class)' % el, mode='eval').body)
             ctx.inst('R7', vf, 'validator-checks-every-element', ok7, 'the validator must test every cached element against self.element_class')
     ctx.inst('R7', fcb, 'hit-validated-against-kind', ok7,
              'the cache key is the CRC only: a hit must be validated against the element class being fetched before it is adopted '
